@@ -2553,6 +2553,13 @@ impl<Front: SocketHandler> ConnectionH2<Front> {
             }
             (H2State::ClientSettings, Position::Server) => {
                 let i = kawa.storage.data();
+                // RFC 9113 §6.5: a SETTINGS payload whose length is not a
+                // multiple of 6 is a connection error of type FRAME_SIZE_ERROR.
+                // `settings_frame` is called directly here (not through
+                // `frame_body`), so the check has to be repeated.
+                if i.len() % parser::SETTINGS_ENTRY_SIZE as usize != 0 {
+                    return self.goaway(H2Error::FrameSizeError);
+                }
                 let settings = match parser::settings_frame(
                     i,
                     &FrameHeader {
